@@ -307,7 +307,8 @@ Proof.
     destruct (n <=? 0) eqn:Hn; [discriminate|]. apply Z.leb_gt in Hn.
     unfold align_current_address in H.
     destruct (negb (p_addr st mod dwd =? 0)) eqn:Ha; [discriminate|].
-    apply negb_false_iff, Z.eqb_eq in Ha. injection H as <-.
+    apply negb_false_iff, Z.eqb_eq in Ha.
+    destruct (_ >? _); [discriminate|]. injection H as <-.
     cbn [p_addr p_labels p_ops p_seg step_ops next_addr] in *.
     assert (Hev : eval_expr (lookup lf) e = Some n).
     { unfold exact_eval in En. rewrite (eval_new_correct None (p_labels st) e e' Ee) in En. cbn [env_of] in En.
@@ -833,4 +834,34 @@ Proof.
   destruct (add_segment_to_fjm ww ver (b_wr st1) (b_first st1) (b_nextw st1) (b_fj st1) (b_wf st1)) as [[wr c]| |] eqn:Ea;
     cbn [bind] in El; try discriminate.
   injection El as <-. cbn [b_wr]. eapply add_segment_inv; eassumption.
+Qed.
+
+(* ================= the full statements (not yet proved in full: see Properties/C02.v) ================= *)
+
+(* guards = the recorded defects of the tree: F17 (lexical_labels), F16 (aux_on_io), F18 (reserves_nonneg); the last
+   conjunct is about the code BEFORE the fix of F8 only (strict = false): it is true whenever strict = true *)
+Definition C02_guards (ww ver : N) (strict : bool) (P : list stmt) (lbls : labels) : bool :=
+  lexical_labels P && negb (aux_on_io ww lbls) && reserves_nonneg ww P lbls
+  && ((ver <? 2)%N || strict || values_in_range ww P lbls).
+
+Definition C02_sound_statement : Prop :=
+  forall ww ver strict P segs words lbls,
+    assemble_model ww ver strict P = Ok (segs, words, lbls) ->
+    C02_guards ww ver strict P lbls = true ->
+    Denotes ww (image_of segs words) P lbls.
+
+(* a program that denotes no image at all (overlap, misaligned or out-of-range addresses, pad on a non-op-aligned
+   address, ...) is rejected *)
+Definition C02_rejects_statement : Prop :=
+  forall ww ver strict P,
+    (forall img lbls, ~ Denotes ww img P lbls) ->
+    forall segs words lbls, assemble_model ww ver strict P = Ok (segs, words, lbls) ->
+                            C02_guards ww ver strict P lbls = false.
+
+(* the second follows from the first *)
+Lemma C02_rejects_from_sound : C02_sound_statement -> C02_rejects_statement.
+Proof.
+  intros Hs ww ver strict P Himp segs words lbls H.
+  destruct (C02_guards ww ver strict P lbls) eqn:G; [|reflexivity].
+  elim (Himp _ _ (Hs _ _ _ _ _ _ _ H G)).
 Qed.
